@@ -33,9 +33,11 @@ ValueVerdict(e) ==
 TypeVerdict(e) == IF IntTyped(e.term, e.ctx) /\ e.obs.t \in {"float", "inf", "nan"} /\ ~(e.obs.t = "float" /\ e.obs.whole.ok)
                   THEN {"integer_expression_not_integer_typed"} ELSE {}
 \* (a result of millions of bits is not shipped to the validator: o.huge - judged by type and sign only)
+\* an equation whose sides are exactly computable and clearly apart must raise, whatever the number types involved
+FarApartVerdict(e) == IF EqFarApart(e.term, e.ctx) /\ e.obs.t # "exc" THEN {"unequal_equation_not_raised"} ELSE {}
 Verdict(e) == IF e.obs.t = "mutated" THEN {"evaluate_modifies_the_assignment"}
               ELSE IF e.obs.t = "int" /\ e.obs.huge THEN SignVerdict(e) \cup (IF IntTyped(e.term, e.ctx) THEN {} ELSE {"note_not_judged"})
-              ELSE SignVerdict(e) \cup TypeVerdict(e) \cup ValueVerdict(e)
+              ELSE SignVerdict(e) \cup TypeVerdict(e) \cup ValueVerdict(e) \cup FarApartVerdict(e)
 VARIABLES i, v
 Init == i \in 1..N /\ v = {"pending"}
 Next == v = {"pending"} /\ v' = Verdict(Events[i]) /\ UNCHANGED i
